@@ -1445,9 +1445,19 @@ impl Server {
                         return true;
                     }
                     Some(RequestType::SoftStop(_)) => {
-                        self.shutting_down = Some(request.id.clone());
-                        self.last_sessions_len = self.sessions.borrow().slab.len();
-                        self.notify(request);
+                        if self.shutting_down.is_some() {
+                            // Only one request id can be acknowledged when the
+                            // last session is gone: overwriting it would leave
+                            // the first soft stop without a final answer.
+                            push_queue(worker_response_error(
+                                request.id,
+                                "a soft stop is already in progress",
+                            ));
+                        } else {
+                            self.shutting_down = Some(request.id.clone());
+                            self.last_sessions_len = self.sessions.borrow().slab.len();
+                            self.notify(request);
+                        }
                     }
                     Some(RequestType::ReturnListenSockets(_)) => {
                         info!("received ReturnListenSockets order");
